@@ -420,7 +420,13 @@ def _substitute_reference(repo, f, entry):
         if not isinstance(rnode, (ast.FunctionDef, ast.AsyncFunctionDef)):
             return False
         info = callee_info(repo, f)
-        if normal.nf_key(f.node, info) != normal.nf_key(rnode, info):
+        from .astutil import try_fold
+        consts = {}
+        for nm, v in f.module.assigns.items():
+            k = try_fold(v)
+            if isinstance(k, (int, float, str)) and not isinstance(k, bool):
+                consts[nm] = k
+        if normal.nf_key(f.node, info, consts) != normal.nf_key(rnode, info, consts):
             return False
     except (SyntaxError, RecursionError):
         return False
